@@ -139,7 +139,21 @@ def run(index, tier="quick", seed=0) -> Result:
                 res.bad("PREC-0", f"{name}:fmt:{f.fmt}", f"{fn.file}:{f.line}", f"io.{name} writes a coordinate with format spec '{f.fmt}': not full double precision")
             if f.kind == "UNKNOWN":
                 res.not_in_fragment.append(f"{name}: unclassified field {f.info}")
-        if not any(f.kind == "FLOAT" and f.fmt for f in all_fields(skel)):
+        # read-back: every coordinate token, however it was produced (str, a format spec, a helper), reads back as the double
+        # it was produced from - checked on one representative per spelling class
+        lossy = None
+        for (k_, tok_, c_, f_) in inst.fields:
+            if k_ == "FLOAT" and not f_.fmt and "sample" in c_:
+                try:
+                    if float(tok_) != float(c_["sample"]):
+                        lossy = (tok_, c_["sample"], f_)
+                        break
+                except ValueError:
+                    pass        # not a number at all: FMT-1's business
+        if lossy:
+            res.bad("PREC-0", f"{name}:readback", f"{fn.file}:{lossy[2].line}", f"io.{name} writes the coordinate {lossy[1]} as `{lossy[0]}`, which does not "
+                    "read back as the same double: the exported mesh is not the polyhedron to floating-point precision")
+        if not any(f.kind == "FLOAT" and f.fmt for f in all_fields(skel)) and not lossy:
             res.ok("PREC-0", name)
         # ------------------------------------------------ CNT-1 / IDX-1
         lines = text.split("\n")
